@@ -784,7 +784,13 @@ class DAGRunConcurrentManager(DAGRunManagerLike):
             # Only the request that executed the node starts the subgraph. A duplicate request merely reads the marker
             # that is stored for the node: its runner would find the subgraph active and give up - or, if it gets its
             # turn after the subgraph has finished (exhausted), run all the iterations once more.
-            if isinstance(result, Recurrent) and not is_duplicate_request:
+            # Nor does an execution inside an iteration of the running subgraph: its runner could get its turn only
+            # after the subgraph has finished, and would run all the iterations again.
+            if isinstance(result, Recurrent) and not is_duplicate_request and not (
+                self._node_storage.exists_active_rec_subgraph(
+                    self.dag.graph.nodes[node_id].get(NodeField.start_node), node_id,
+                )
+            ):
                 self._create_task(
                     name=f'rec-{node_id}',
                     coro=self._run_recurrent_subgraph(
